@@ -696,3 +696,167 @@ fn c21_mldv() {
     check_alu(&pre, &vm, res, ra, COST_mldv, out);
     core::mem::forget(vm);
 }
+
+// ---------------------------------------------------------------------------------------------
+// C24 / C23: memory instructions on a small concrete layout: stack extent 16 bytes (symbolic
+// contents), heap of 8 bytes at the top of memory, no call frame (prev_hp = VM_MAX_RAM).  Addresses,
+// values, immediates, $ssp/$sp and gas are fully symbolic.
+// ---------------------------------------------------------------------------------------------
+pub const STK: u64 = 16;
+pub const HPV: u64 = VM_MAX_RAM - 8;
+
+pub fn vm_with_memory() -> (Vm, [Word; 64], [u8; 24]) {
+    let mut vm = new_vm();
+    let init: [u8; 24] = kani::any();
+    vm.memory.grow_stack(STK).unwrap();
+    {
+        let sp: Word = STK;
+        let mut hp: Word = VM_MAX_RAM;
+        vm.memory.grow_heap_by(Reg::new(&sp), RegMut::new(&mut hp), 8).unwrap();
+    }
+    vm.memory.write_bytes_noownerchecks(0u64, <[u8; 16]>::try_from(&init[..16]).unwrap()).unwrap();
+    vm.memory.write_bytes_noownerchecks(HPV, <[u8; 8]>::try_from(&init[16..]).unwrap()).unwrap();
+    let mut r: [Word; 64] = kani::any();
+    kani::assume(r[R_ZERO] == 0 && r[R_ONE] == 1 && r[R_FLAG] < 4 && r[R_CGAS] <= r[R_GGAS]);
+    kani::assume(r[R_PC] <= VM_MAX_RAM && r[R_PC] % 4 == 0 && r[R_IS] <= r[R_PC]);
+    kani::assume(r[R_FP] <= r[R_SSP] && r[R_SSP] <= r[R_SP] && r[R_SP] <= STK);
+    r[R_HP] = HPV;
+    vm.registers = r;
+    (vm, r, init)
+}
+/// byte of the initial memory image at absolute address a (a < 16 or a >= HPV)
+pub fn img(init: &[u8; 24], a: u64) -> u8 { if a < STK { init[a as usize] } else { init[(16 + (a - HPV)) as usize] } }
+pub fn cur(vm: &Vm, a: u64) -> u8 { vm.memory.read_bytes::<_, 1>(a).unwrap()[0] }
+pub fn accessible(s: u128, e: u128) -> bool { e <= VM_MAX_RAM as u128 && (e <= STK as u128 || s >= HPV as u128) }
+/// the ownership rule of the statement; empty ranges follow the documented edge rule (proved for the
+/// real predicate by c24_ownership)
+pub fn owned(pre: &[Word; 64], s: u128, e: u128) -> bool {
+    let (ssp, sp, hp, php) = (pre[R_SSP] as u128, pre[R_SP] as u128, HPV as u128, VM_MAX_RAM as u128);
+    if s < e { (ssp <= s && e <= sp) || (hp <= s && e <= php) }
+    else { s == ssp || (ssp <= s && s < sp) || s == hp || (hp <= s && s <= php) }
+}
+/// memory equals the initial image except inside [lo, hi), where it equals `f(offset)`
+pub fn mem_is(vm: &Vm, init: &[u8; 24], lo: u128, hi: u128, f: &dyn Fn(u64) -> u8) -> bool {
+    let mut ok = true;
+    let mut k: u64 = 0;
+    while k < 24 {
+        let a = if k < 16 { k } else { HPV + (k - 16) };
+        let want = if (a as u128) >= lo && (a as u128) < hi { f(a - lo as u64) } else { img(init, a) };
+        if cur(vm, a) != want { ok = false; }
+        k += 1;
+    }
+    ok
+}
+
+/// Contract shared by every instruction that writes `len` bytes at `addr`:
+/// refused (specified reason) with memory bit-for-bit unchanged unless the range is inside memory,
+/// accessible and owned; otherwise exactly [addr, addr+len) changes to the specified bytes.
+pub fn check_write(pre: &[Word; 64], vm: &Vm, init: &[u8; 24], res: Res, cost: Word, addr: u128, len: u128, f: &dyn Fn(u64) -> u8) {
+    let post = &vm.registers;
+    assert!(!matches!(res, Err(RuntimeError::Bug(_))), "C29 no internal-bug error");
+    assert!(post[R_CGAS] <= post[R_GGAS] && post[R_GGAS] <= pre[R_GGAS], "C26 gas invariants");
+    if cost > pre[R_CGAS] {
+        assert!(panic_of(&res) == Some(PanicReason::OutOfGas) && post[R_CGAS] == 0, "C26 out of gas");
+        assert!(unchanged_except(pre, post, &[R_CGAS, R_GGAS]) && mem_is(vm, init, 0, 0, f), "C26 out-of-gas performs no other effect");
+        return;
+    }
+    assert!(post[R_CGAS] == pre[R_CGAS] - cost && post[R_GGAS] == pre[R_GGAS] - cost, "C26 exact charge");
+    let end = addr + len;
+    let expect = if addr > u64::MAX as u128 || end > VM_MAX_RAM as u128 { Some(PanicReason::MemoryOverflow) }
+        else if !accessible(addr, end) { Some(PanicReason::UninitalizedMemoryAccess) }
+        else if !owned(pre, addr, end) { Some(PanicReason::MemoryOwnership) }
+        else { None };
+    match expect {
+        Some(p) => {
+            assert!(panic_of(&res) == Some(p), "C24 write outside owned/accessible memory panics with the specified reason");
+            assert!(mem_is(vm, init, 0, 0, f), "C24 a refused write leaves memory bit-for-bit unchanged");
+            assert!(unchanged_except(pre, post, &[R_CGAS, R_GGAS]), "C24 a refused write changes no register");
+        }
+        None => {
+            assert!(matches!(res, Ok(ExecuteState::Proceed)), "C24 owned write succeeds");
+            assert!(mem_is(vm, init, addr, end, f), "C24 only bytes inside the written range change, to the specified values");
+            assert!(post[R_PC] == pre[R_PC] + 4, "C25 pc + 4");
+            assert!(unchanged_except(pre, post, &[R_PC, R_CGAS, R_GGAS]), "C24 store changes no other register");
+        }
+    }
+}
+
+macro_rules! store_harness {
+    ($name:ident, $Op:ident, $cost:expr, $w:expr) => {
+        #[kani::proof]
+        #[kani::unwind(300)]
+        #[kani::stub(crate::constraints::reg_key::split_registers, split_registers_stub)]
+        fn $name() {
+            let (mut vm, pre, init) = vm_with_memory();
+            let (ra, rb, imm) = (any_reg(), any_reg(), any_imm12());
+            let mid = after_gas(&pre, $cost);
+            let res = op::$Op::new(ra, rb, imm).execute(&mut vm);
+            let addr = mid[ri(ra)] as u128 + (imm.to_u16() as u128) * $w;
+            let val = mid[ri(rb)];
+            // big-endian, truncated to the access width
+            let f = move |off: u64| -> u8 { ((val >> (8 * ($w as u64 - 1 - off))) & 0xff) as u8 };
+            check_write(&pre, &vm, &init, res, $cost, addr, $w, &f);
+            core::mem::forget(vm);
+        }
+    };
+}
+//@ props=C24,C23:thorough,C25:thorough,C26:thorough,C29:thorough tier=quick class=bounded(regions=16+8) timeout=1500 -- SB: byte store at $rA + imm, ownership/accessibility/overflow reasons, frame on memory and registers
+store_harness!(c24_sb, SB, COST_sb, 1u128);
+//@ props=C24,C23:thorough,C25:thorough,C26:thorough,C29:thorough tier=quick class=bounded(regions=16+8) timeout=1500 -- SW: 8-byte big-endian store at $rA + 8*imm (charged as sw)
+store_harness!(c24_sw, SW, COST_sw, 8u128);
+//@ props=C24:thorough,C23:thorough tier=thorough class=bounded(regions=16+8) timeout=1500 -- SHW: 2-byte store at $rA + 2*imm (charged as sw)
+store_harness!(c24_shw, SHW, COST_sw, 2u128);
+//@ props=C24:thorough,C23:thorough tier=thorough class=bounded(regions=16+8) timeout=1500 -- SQW: 4-byte store at $rA + 4*imm (charged as sw)
+store_harness!(c24_sqw, SQW, COST_sw, 4u128);
+
+//@ props=C24,C23:thorough,C26:thorough,C29:thorough tier=quick class=bounded(regions=16+8) timeout=1500 -- MCL: clears exactly [$rA, $rA+$rB) when owned, dependent cost mcl(len), otherwise refused with memory unchanged
+#[kani::proof]
+#[kani::unwind(300)]
+#[kani::stub(crate::constraints::reg_key::split_registers, split_registers_stub)]
+fn c24_mcl() {
+    let (mut vm, pre, init) = vm_with_memory();
+    let (ra, rb) = (any_reg(), any_reg());
+    // MCL reads its operands before charging (the charge depends on the length)
+    let (a, len) = (pre[ri(ra)], pre[ri(rb)]);
+    let cost = spec_resolve(COST_mcl, len);
+    let res = op::MCL::new(ra, rb).execute(&mut vm);
+    let f = |_off: u64| -> u8 { 0 };
+    // the address operand is read after the charge
+    let a_eff = after_gas(&pre, cost)[ri(ra)];
+    check_write(&pre, &vm, &init, res, cost, a_eff as u128, len as u128, &f);
+    core::mem::forget(vm);
+}
+
+//@ props=C23,C25:thorough,C29:thorough tier=quick class=bounded(regions=16+8) timeout=1500 -- LW: $rA = big-endian word at $rB + 8*imm if those 8 bytes are accessible (no ownership needed), else the read error; reserved destination refused; memory unchanged
+#[kani::proof]
+#[kani::unwind(300)]
+#[kani::stub(crate::constraints::reg_key::split_registers, split_registers_stub)]
+fn c23_lw() {
+    let (mut vm, pre, init) = vm_with_memory();
+    let (ra, rb, imm) = (any_reg(), any_reg(), any_imm12());
+    let mid = after_gas(&pre, COST_lw);
+    let res = op::LW::new(ra, rb, imm).execute(&mut vm);
+    let post = &vm.registers;
+    let addr = mid[ri(rb)] as u128 + (imm.to_u16() as u128) * 8;
+    let f = |_o: u64| -> u8 { 0 };
+    assert!(mem_is(&vm, &init, 0, 0, &f), "C23 a load never changes memory");
+    if COST_lw > pre[R_CGAS] {
+        assert!(panic_of(&res) == Some(PanicReason::OutOfGas));
+    } else if ri(ra) < 16 {
+        assert!(panic_of(&res) == Some(PanicReason::ReservedRegisterNotWritable), "C21 reserved destination");
+        assert!(unchanged_except(&pre, post, &[R_CGAS, R_GGAS]));
+    } else if addr > u64::MAX as u128 || addr + 8 > VM_MAX_RAM as u128 {
+        assert!(panic_of(&res) == Some(PanicReason::MemoryOverflow), "C23 read beyond memory");
+    } else if !accessible(addr, addr + 8) {
+        assert!(panic_of(&res) == Some(PanicReason::UninitalizedMemoryAccess), "C23 read of the gap or spanning both regions");
+    } else {
+        assert!(matches!(res, Ok(ExecuteState::Proceed)));
+        let mut want: u64 = 0;
+        let mut k = 0;
+        while k < 8 { want = (want << 8) | img(&init, addr as u64 + k) as u64; k += 1; }
+        assert!(post[ri(ra)] == want, "C23 loaded word = big-endian bytes of the flat array");
+        assert!(post[R_PC] == pre[R_PC] + 4, "C25 pc + 4");
+        assert!(unchanged_except(&pre, post, &[ri(ra), R_PC, R_CGAS, R_GGAS]));
+    }
+    core::mem::forget(vm);
+}
